@@ -155,7 +155,7 @@ class _SyncConn(object):
         return self._wait()
 
     def _wait(self):
-        if not self.idle.wait(20):
+        if not self.idle.wait(300):
             return False
         return True
 
@@ -191,7 +191,7 @@ def _run_sync_stream(frontend, framing_cls, ctx, script, flags):
         threads[c] = t
         conn.idle.clear()
         t.start()
-        if not conn.idle.wait(20):
+        if not conn.idle.wait(300):
             res.hung = True
 
     for c in _conns(script):
